@@ -314,6 +314,17 @@ fn directed_world(which: usize, tag: &str) -> Result<W9, String> {
         let u1 = DictSpec { pos: pos.clone(), rows: vec![atom("い"), comp("東京い", 'C', "0/U0", "*"), comp("い都い", 'C', "U0/1/U0", "U0/1/U0")] };
         let u2 = DictSpec { pos: pos.clone(), rows: vec![atom("あ"), atom("ー"), comp("あー", 'C', "U0/U1", "U0/U1"), comp("あー都", 'C', "U0/U1/1", "U2/1")] };
         build_world(tag, n, &matrix, vec![sys, u1, u2], false, (true, false, false), vec!["directed:wellformed".into()])
+    } else if which == 2 {
+        // two and three user dictionaries, U-references inside the 2nd and 3rd one (re-stamping visible: the builder
+        // stores `U<n>` as dictionary 1), the first user dictionary SHORTER than the others and with other words at
+        // the same numbers; analysed with single-flag subsets (see split_case)
+        let sys = DictSpec { pos: pos.clone(), rows: vec![atom("東京"), atom("都"), atom("a"), atom("b")] };
+        let u1 = DictSpec { pos: pos.clone(), rows: vec![atom("い"), atom("ろは"), comp("いろは", 'C', "U0/U1", "U0/U1")] };
+        let u2 = DictSpec { pos: pos.clone(), rows: vec![atom("あ"), atom("ー"), atom("は"), comp("あー", 'C', "U0/U1", "*"),
+            comp("あーは", 'C', "U0/U1/U2", "U3/U2"), comp("あ都", 'C', "U0/1", "U0/1")] };
+        let u3 = DictSpec { pos: pos.clone(), rows: vec![atom("か"), atom("きく"), comp("かきく", 'C', "か,名詞,普通名詞,一般,*,*,*,か/U1", "U0/U1"),
+            comp("かきくa", 'C', "U0/U1/2", "U2/2"), atom("𠮷"), comp("𠮷かb", 'C', "U4/U0/3", "U4/U0/3")] };
+        build_world(tag, n, &matrix, vec![sys, u1, u2, u3], false, (true, false, false), vec!["directed:userdicts".into()])
     } else {
         // D6: `東` with the A split `東京都/京`
         let rows = vec![atom("東京都"), atom("京"), comp("東", 'C', "0/1", "*"), atom("あ"), comp("あ京", 'C', "6/1", "*"), atom("都"), atom("a")];
@@ -324,7 +335,7 @@ fn directed_world(which: usize, tag: &str) -> Result<W9, String> {
 
 fn world9(seed: u64, widx: usize) -> Result<W9, String> {
     let tag = format!("C09-w{}", widx);
-    if widx < 2 { return directed_world(widx, &tag); }
+    if widx < 3 { return directed_world(widx, &tag); }
     let mut rng = Rng::for_case(seed ^ 0x0909_0909, widx);
     let n = rng.range(2, 4);
     let matrix = Matrix::random(&mut rng, n, n, false);
@@ -397,20 +408,71 @@ fn ops_wire(ops: &[Op]) -> String {
     ops.iter().map(|o| match o { Op::New(m) => format!("n:{}", mode_char(*m)), Op::Sub(b) => format!("s:{}", b), Op::Md(m) => format!("m:{}", mode_char(*m)) }).collect::<Vec<_>>().join(",")
 }
 
-/// returns the tokenizer and the values returned by every call (old mode / old subset)
-fn apply_ops<'a>(dic: &'a JapaneseDictionary, ops: &[Op]) -> (StatefulTokenizer<&'a JapaneseDictionary>, Vec<String>) {
-    let mut it = ops.iter();
-    let m0 = match it.next() { Some(Op::New(m)) => *m, _ => Mode::C };
+/// what a long-lived analyser went through before the case: after the first `at` configuration calls the
+/// tokenizer analysed `warm` (each result collected into the SAME MorphemeList, the way `collect_results`
+/// is used in a loop: the list and the tokenizer swap their input buffers and node vectors on every call,
+/// so an analysis meets the buffers of the call before last), then the remaining configuration calls follow.
+/// Nothing of this is sent to the model: the property does not depend on the history.
+#[derive(Clone, Debug, Default)]
+struct Hist { warm: Vec<String>, at: usize }
+
+impl Hist {
+    fn fresh() -> Hist { Hist { warm: vec![], at: 0 } }
+    fn describe(&self) -> String {
+        if self.warm.is_empty() { "new".to_string() } else { format!("recycled(after-op-{}:{})", self.at, self.warm.iter().map(|t| if t.len() > 40 { format!("<{}-bytes>", t.len()) } else { format!("{:?}", t) }).collect::<Vec<_>>().join("+")) }
+    }
+}
+
+fn apply_one<'a>(tok: &mut StatefulTokenizer<&'a JapaneseDictionary>, o: &Op, rets: &mut Vec<String>) {
+    match o {
+        Op::New(_) => {}
+        Op::Sub(b) => { let old = tok.set_subset(InfoSubset::from_bits_truncate(*b)); rets.push(old.bits().to_string()); }
+        Op::Md(m) => { let old = tok.set_mode(*m); rets.push(mode_char(old).to_string()); }
+    }
+}
+
+/// returns the tokenizer and the values returned by every call (old mode / old subset); the warm-up texts of
+/// `hist` are analysed on the way and collected into `ml` (failures are part of the history)
+fn apply_hist<'a>(dic: &'a JapaneseDictionary, ops: &[Op], hist: &Hist, ml: &mut MorphemeList<&'a JapaneseDictionary>) -> (StatefulTokenizer<&'a JapaneseDictionary>, Vec<String>) {
+    let m0 = match ops.first() { Some(Op::New(m)) => *m, _ => Mode::C };
     let mut tok = StatefulTokenizer::new(dic, m0);
     let mut rets = vec![];
-    for o in it {
-        match o {
-            Op::New(_) => {}
-            Op::Sub(b) => { let old = tok.set_subset(InfoSubset::from_bits_truncate(*b)); rets.push(old.bits().to_string()); }
-            Op::Md(m) => { let old = tok.set_mode(*m); rets.push(mode_char(old).to_string()); }
-        }
+    let at = hist.at.max(1).min(ops.len());
+    for o in &ops[1.min(ops.len())..at] { apply_one(&mut tok, o, &mut rets); }
+    for wt in &hist.warm {
+        tok.reset().push_str(wt);
+        if tok.do_tokenize().is_ok() { let _ = ml.collect_results(&mut tok); }
     }
+    for o in &ops[at..] { apply_one(&mut tok, o, &mut rets); }
     (tok, rets)
+}
+
+fn apply_ops<'a>(dic: &'a JapaneseDictionary, ops: &[Op]) -> (StatefulTokenizer<&'a JapaneseDictionary>, Vec<String>) {
+    let mut ml = MorphemeList::empty(dic);
+    apply_hist(dic, ops, &Hist::fresh(), &mut ml)
+}
+
+fn too_long_text() -> &'static str {
+    static T: std::sync::OnceLock<String> = std::sync::OnceLock::new();
+    T.get_or_init(|| "あ".repeat(16384))          // 49152 bytes > 49149: rejected by start_build (InputTooLong)
+}
+
+/// 1-4 earlier texts of other lengths: longer and shorter than `text`, empty, rejected, unrelated
+fn gen_warm(rng: &mut Rng, w: &W9, text: &str, nops: usize) -> Hist {
+    let n = rng.range(1, 4);
+    let mut warm = vec![];
+    for _ in 0..n {
+        warm.push(match rng.below(8) {
+            0 => String::new(),
+            1 => too_long_text().to_string(),
+            2 => text.chars().take(1).collect(),
+            3 => { let mut t = text.to_string(); for _ in 0..rng.range(1, 3) { t.push_str(&gen_text9(rng, w)); } t.push_str(text); t }
+            4 => { let k = text.chars().count(); text.chars().take(k.saturating_sub(1)).collect() }
+            5 => { let mut t = gen_text9(rng, w); t.push_str(&gen_text9(rng, w)); t.push_str(&gen_text9(rng, w)); t }
+            _ => gen_text9(rng, w),
+        });
+    }
+    Hist { warm, at: rng.range(1, nops.max(1)) }
 }
 
 fn rand_subset(rng: &mut Rng) -> u32 {
@@ -428,22 +490,34 @@ fn rand_mode(rng: &mut Rng) -> Mode { mode_of(rng.below(3)) }
 
 /// a history that ends in mode `m` (A or B)
 fn direct_ops(rng: &mut Rng, m: Mode) -> Vec<Op> {
-    match rng.below(10) {
+    let own = match m { Mode::A => SPLIT_A, Mode::B => SPLIT_B, Mode::C => 0 };
+    match rng.below(14) {
         0..=3 => vec![Op::New(m)],
         4 => vec![Op::New(Mode::C), Op::Md(m)],
         5 => vec![Op::New(m), Op::Sub(rand_subset(rng))],
         6 => vec![Op::New(Mode::C), Op::Sub(rand_subset(rng)), Op::Md(m)],
         7 => vec![Op::New(rand_mode(rng)), Op::Md(rand_mode(rng)), Op::Sub(rand_subset(rng)), Op::Md(m)],
         8 => vec![Op::New(Mode::C), Op::Sub(4), Op::Md(m)],
+        // single-flag subsets: only the split field of the mode (what set_subset leaves of an empty request)
+        9 => vec![Op::New(m), Op::Sub(if rng.chance(1, 2) { own } else { 0 })],
+        // the reviewer's sequence: subset chosen in mode C, mode switched afterwards (no HEAD_WORD_LENGTH bit)
+        10 => vec![Op::New(Mode::C), Op::Sub(1), Op::Md(m)],
+        11 => vec![Op::New(Mode::C), Op::Sub(rng.below(1024) as u32 & !(HWL | SPLIT_A | SPLIT_B)), Op::Md(m)],
         _ => vec![Op::New(rand_mode(rng)), Op::Sub(rand_subset(rng)), Op::Md(rand_mode(rng)), Op::Sub(rand_subset(rng)), Op::Md(m)],
     }
 }
 
+/// the history of the tokenizer that makes the mode-C list for the on-demand splits: every subset
 fn c_ops(rng: &mut Rng) -> Vec<Op> {
-    match rng.below(8) {
-        0..=4 => vec![Op::New(Mode::C)],
-        5 => vec![Op::New(Mode::A), Op::Md(Mode::C)],
-        6 => vec![Op::New(Mode::C), Op::Sub(rand_subset(rng) | SPLIT_A | SPLIT_B)],
+    match rng.below(12) {
+        0..=3 => vec![Op::New(Mode::C)],
+        4 => vec![Op::New(Mode::A), Op::Md(Mode::C)],
+        5 => vec![Op::New(Mode::C), Op::Sub(rand_subset(rng) | SPLIT_A | SPLIT_B)],
+        6 => vec![Op::New(Mode::C), Op::Sub(SPLIT_A)],
+        7 => vec![Op::New(Mode::C), Op::Sub(SPLIT_B)],
+        8 => vec![Op::New(Mode::C), Op::Sub(SPLIT_A | SPLIT_B)],
+        9 => vec![Op::New(if rng.chance(1, 2) { Mode::A } else { Mode::B }), Op::Sub(rand_subset(rng)), Op::Md(Mode::C)],
+        10 => vec![Op::New(Mode::C), Op::Sub(rng.below(1024) as u32)],
         _ => vec![Op::New(Mode::C), Op::Sub(rand_subset(rng))],
     }
 }
@@ -457,6 +531,8 @@ struct T9 {
     wid: u32,
     ob: usize, oe: usize,
     surface: Option<String>,
+    /// byte range of `surface()` inside the original text (pointer arithmetic on the returned slice)
+    srange: Option<(usize, usize)>,
     norm_slice: Option<String>,
     pos: Vec<String>,
     reading: String,
@@ -467,17 +543,23 @@ struct T9 {
 }
 
 impl T9 {
-    fn wire(&self) -> String { format!("{}:{}:{}:{}:{}:{}:{}", self.cb, self.ce, self.bb, self.be, self.wid, self.ob, self.oe) }
+    fn wire(&self) -> String {
+        let sf = match self.srange { Some((a, b)) => format!("{}:{}", a, b), None => "P".to_string() };
+        format!("{}:{}:{}:{}:{}:{}:{}:{}", self.cb, self.ce, self.bb, self.be, self.wid, self.ob, self.oe, sf)
+    }
     fn same_token(&self, o: &T9) -> bool { self == o }
 }
 
 fn extract(ml: &MorphemeList<&JapaneseDictionary>, modified: &str) -> Vec<T9> {
+    let base = ml.surface().as_ptr() as usize;
     ml.iter().map(|m| {
         let (cb, ce, bb, be) = m.verif_node_range();
-        let surface = catch(|| m.surface().to_string()).ok();
+        let sf = catch(|| { let s = m.surface(); ((s.as_ptr() as usize).wrapping_sub(base), s.len(), s.to_string()) }).ok();
+        let srange = sf.as_ref().map(|x| (x.0, x.0 + x.1));
+        let surface = sf.map(|x| x.2);
         let norm_slice = if bb <= be && be <= modified.len() && modified.is_char_boundary(bb) && modified.is_char_boundary(be) { Some(modified[bb..be].to_string()) } else { None };
         T9 {
-            cb, ce, bb, be, wid: m.word_id().as_raw(), ob: m.begin(), oe: m.end(), surface, norm_slice,
+            cb, ce, bb, be, wid: m.word_id().as_raw(), ob: m.begin(), oe: m.end(), surface, srange, norm_slice,
             pos: m.part_of_speech().to_vec(), reading: m.reading_form().to_string(), normalized: m.normalized_form().to_string(),
             dict_form: m.dictionary_form().to_string(), headword: m.get_word_info().surface().to_string(), hwl: m.get_word_info().head_word_length(),
         }
@@ -494,17 +576,19 @@ struct Obs {
     m2o: Vec<usize>,
     c: Vec<T9>,
     c_subset: u32,
+    /// `MorphemeList::subset()` after `collect_results`
+    list_subset: u32,
 }
 
 /// tokenise with the given history; Ok(Err(kind)) = the tokenizer returned an error
-fn run_direct(dic: &JapaneseDictionary, ops: &[Op], text: &str) -> Result<Result<(Vec<T9>, u32, Mode, Vec<String>), String>, String> {
+fn run_direct(dic: &JapaneseDictionary, ops: &[Op], hist: &Hist, text: &str) -> Result<Result<(Vec<T9>, u32, Mode, Vec<String>), String>, String> {
     catch(|| {
-        let (mut tok, rets) = apply_ops(dic, ops);
+        let mut ml = MorphemeList::empty(dic);
+        let (mut tok, rets) = apply_hist(dic, ops, hist, &mut ml);
         tok.reset().push_str(text);
         if let Err(e) = tok.do_tokenize() { return Err(err_class(&e)); }
         let st = tok.verif_state();
         let modified = tok.verif_input().verif_tables().modified;
-        let mut ml = MorphemeList::empty(dic);
         if let Err(e) = ml.collect_results(&mut tok) { return Err(err_class(&e)); }
         Ok((extract(&ml, &modified), st.3.bits(), st.4, rets))
     })
@@ -612,14 +696,26 @@ fn impl_d6_fixed() -> bool {
     }
 }
 
+/// does `MorphemeList::lookup` record the subset of the call in the list (proposed repair `fix_lookup_subset.patch`)?
+/// Textual probe of the linked source.
+fn impl_lookup_fixed() -> bool {
+    let p = format!("{}/src/analysis/mlist.rs", crate::c07::repo_sudachi_dir());
+    match std::fs::read_to_string(p) {
+        Ok(s) => s.contains("part.subset = subset;"),
+        Err(_) => false,
+    }
+}
+
 pub fn run(run: &mut Run) {
     let d6fix = impl_d6_fixed();
+    let lkfix = impl_lookup_fixed();
     run.extra.insert("model_variant_d6fix".into(), serde_json::json!(d6fix));
+    run.extra.insert("model_variant_lookup_fix".into(), serde_json::json!(lkfix));
     run.rule = "worlds = system dictionary + 0-3 user dictionaries with WELL-FORMED A/B split declarations generated bottom-up (atoms of 1-4 byte \
 characters, compounds whose key is the concatenation of their units; references by id, U-id and inline; system->system, user->system, user->user; homograph \
 units, non-indexed units, headwords of other length than the key, nested compounds, one-unit and self declarations) x texts made of compound keys written in \
 de-normalised form (full-width/upper-case letters, half-width kana, combining accents, U+337F) x tokenizer histories (new/set_subset/set_mode sequences); \
-one world in 8 and directed world 1 carry ILL-FORMED declarations (D6 stream). non-trivial = the direct tokenisation succeeded and at least one C token was \
+one world in 8 and directed world 1 carry ILL-FORMED declarations (judged by the first and third sentence of the property only); directed world 2 = three user dictionaries with U-references inside the 2nd/3rd and single-flag subsets; HALF of the split cases run on recycled objects (tokenizer + one MorphemeList after 1-4 other texts: longer, shorter, empty, rejected; configuration calls partly after them; used output lists), C lists are made with every subset; stream `lookup` (odd worlds): MorphemeList::lookup on a new or used list followed by split_into. non-trivial = the direct tokenisation succeeded and at least one C token was \
 replaced by >= 2 units; distinct by line".into();
     let n = run.opts.count;
     let mut cur: Option<(usize, Result<W9, String>)> = None;
@@ -641,7 +737,10 @@ replaced by >= 2 units; distinct by line".into();
         let mut rng = Rng::for_case(run.opts.seed, idx);
         let j = idx % CASES_PER_WORLD;
         if j == 0 { winfo_case(run, idx, w, &mut rng); continue; }
-        if j == 1 { subset_case(run, idx, w, &mut rng); continue; }
+        if j == 1 {
+            if widx % 2 == 1 || widx == 2 { lookup_case(run, idx, w, &mut rng, widx, d6fix, lkfix); } else { subset_case(run, idx, w, &mut rng); }
+            continue;
+        }
         split_case(run, idx, w, &mut rng, widx, j, d6fix);
     }
 }
@@ -700,6 +799,98 @@ fn subset_case(run: &mut Run, idx: usize, w: &W9, rng: &mut Rng) {
     }
 }
 
+/// `MorphemeList::lookup(query, subset)` on a list that may have been used before (its subset is then the one of the
+/// tokenizer whose results it collected), followed by `split_into` of every morpheme found: the units must be the
+/// declared ones, placed by their keys, whatever the list went through before.
+fn lookup_case(run: &mut Run, idx: usize, w: &W9, rng: &mut Rng, widx: usize, d6fix: bool, lkfix: bool) {
+    let dic = &w.dic;
+    let mode = if rng.chance(1, 2) { Mode::A } else { Mode::B };
+    let need = match mode { Mode::A => SPLIT_A, Mode::B => SPLIT_B, Mode::C => 0 };
+    let (key, stale, sl): (String, Option<u32>, u32) = if widx == 2 {
+        ("あーは".to_string(), Some(1), 1023)                 // list used by a tokenizer with fields = {SURFACE} before
+    } else if widx == 1 {
+        ("東".to_string(), Some(0), 1023)
+    } else {
+        let d = &w.dicts[rng.below(w.dicts.len())];
+        let comps: Vec<&Row> = d.rows.iter().filter(|r| r.split_a != "*" || r.split_b != "*").collect();
+        let key = if !comps.is_empty() && rng.chance(5, 6) { rng.pick(&comps).surface.clone() } else { rng.pick(&d.rows).surface.clone() };
+        let stale = match rng.below(6) { 0 => None, 1 => Some(0), 2 => Some(1), 3 => Some(4), 4 => Some(1023), _ => Some(rand_subset(rng)) };
+        let sl = match rng.below(6) { 0 | 1 => 1023, 2 => SPLIT_A | SPLIT_B | HWL, 3 => rand_subset(rng) | need, 4 => rand_subset(rng) & !need, _ => rand_subset(rng) };
+        (key, stale, sl)
+    };
+    let warm_text = gen_text9(rng, w);
+    let res = catch(|| -> Result<(u32, u32, Vec<T9>, Vec<Result<(bool, Vec<T9>), String>>), String> {
+        let mut ml = MorphemeList::empty(dic);
+        if let Some(b) = stale {
+            let mut tok = StatefulTokenizer::new(dic, Mode::C);
+            tok.set_subset(InfoSubset::from_bits_truncate(b));
+            tok.reset().push_str(&warm_text);
+            if tok.do_tokenize().is_ok() { let _ = ml.collect_results(&mut tok); }
+        }
+        let before = ml.subset().bits();
+        ml.clear();
+        if let Err(e) = ml.lookup(&key, InfoSubset::from_bits_truncate(sl)) { return Err(err_class(&e)); }
+        let after = ml.subset().bits();
+        let found = extract(&ml, &key);
+        let mut od = vec![];
+        let mut out = MorphemeList::empty(dic);
+        for i in 0..ml.len() {
+            out.clear();
+            let r = catch(|| ml.get(i).split_into(mode, &mut out).map(|flag| (flag, extract(&out, &key))));
+            od.push(match r { Err(p) => Err(p), Ok(Err(e)) => Err(format!("err {}", err_class(&e))), Ok(Ok(x)) => Ok(x) });
+        }
+        Ok((before, after, found, od))
+    });
+    let (before, after, found, od) = match res {
+        Err(p) => { run.fail_with_line(idx, &format!("lookup key={:?}", key), "lookup:panic", &format!("MorphemeList::lookup({:?}) panics: {}", key, p)); return; }
+        Ok(Err(e)) => { run.bump(&format!("lookup:err:{}", e)); return; }
+        Ok(Ok(x)) => x,
+    };
+    run.bump(if stale.is_some() { "lookup:list-used-before" } else { "lookup:new-list" });
+    // tables of the query as `lookup` builds them (no input-text plugins run: modified = original = query)
+    let mut b2c = vec![]; let mut c2b = vec![];
+    for (ci, (bi, ch)) in key.char_indices().enumerate() { c2b.push(bi); for _ in 0..ch.len_utf8() { b2c.push(ci); } }
+    let nch = key.chars().count();
+    b2c.push(nch); c2b.push(key.len());
+    let m2o: Vec<usize> = (0..=key.len()).collect();
+    let payload = format!("{}{}ls={} sl={} odm={} lex={} b2c={} c2b={} m2o={} nodes={} ce={} be={}", if d6fix { "d6fix=1 " } else { "" }, if lkfix { "lkfix=1 " } else { "" },
+        before, sl, mode_char(mode), w.lex_wire, join(b2c.iter(), ","), join(c2b.iter(), ","), join(m2o.iter(), ","), join(found.iter().map(|t| t.wid), ","), nch, key.len());
+    let odpart = od.iter().map(|r| match r { Err(p) if p.starts_with("err ") => "E".to_string(), Err(_) => "P".to_string(), Ok((f, ts)) => format!("{}{}", if *f { "T" } else { "F" }, wire_list(ts)) }).collect::<Vec<_>>().join(";");
+    let mut any = false;
+    // oracle: the morphemes found carry what the call asked for; their split is the declared one
+    let desc = format!("lookup({:?}, subset {}) on a list whose subset was {} ({}), split_into mode {} | world={}", key, sl, before, match stale { Some(b) => format!("it collected the results of a mode-C tokenizer after set_subset({})", b), None => "new list".to_string() }, mode_char(mode), w.desc.join(" "));
+    let tagk = |k: &str| -> String { if before != sl && !lkfix { format!("lookup-split:stale-subset:{}", k) } else { format!("lookup-split:{}", k) } };
+    let mut fails: Vec<(String, String)> = vec![];
+    for (i, t) in found.iter().enumerate() {
+        if t.cb != 0 || t.ce != nch || t.bb != 0 || t.be != key.len() { fails.push(("lookup:range".into(), format!("morpheme {} found for {:?} has range chars {}..{} bytes {}..{}", i, key, t.cb, t.ce, t.bb, t.be))); continue; }
+        let units = if sl & need != 0 { w.declared(t.wid, mode) } else { vec![] };
+        let wf = w.concat_ok(t.wid, mode);
+        match &od[i] {
+            Err(p) => fails.push((tagk("panic"), format!("split_into of morpheme {} (word {:#x}) fails: {}", i, t.wid, p))),
+            Ok((flag, subs)) => {
+                if units.is_empty() {
+                    if *flag || !subs.is_empty() { fails.push(("lookup-split:none".to_string(), format!("morpheme {} (word {:#x}) has no units loaded but split_into returned {} with {} tokens", i, t.wid, flag, subs.len()))); }
+                } else if units.len() == 1 {
+                    run.bump("lookup:one-unit");
+                } else {
+                    any = true;
+                    run.bump(if wf { "lookup:split-wellformed" } else { "lookup:split-illformed" });
+                    if !*flag { fails.push((tagk("flag"), format!("morpheme {} (word {:#x}) declares {} units, split_into returned false", i, t.wid, units.len()))); }
+                    else if wf {
+                        if let Some((kind, what)) = check_units(w, t, subs, &units, sl == 1023, true) {
+                            fails.push((tagk(&format!("units:{}", kind)), format!("morpheme {} {:?} (word {:#x}): {}", i, t.norm_slice, t.wid, what)));
+                        }
+                    }
+                }
+            }
+        }
+    }
+    run.case(idx, "lookup", &payload, &format!("ok ls={} od={}", after, odpart), any);
+    if let Some((k, what)) = fails.into_iter().next() {
+        run.fail(idx, &k, &format!("{} | {}", what, desc));
+    }
+}
+
 fn split_case(run: &mut Run, idx: usize, w: &W9, rng: &mut Rng, widx: usize, j: usize, d6fix: bool) {
     let dic = &w.dic;
     let mut mode = if rng.chance(1, 2) { Mode::A } else { Mode::B };
@@ -712,25 +903,62 @@ fn split_case(run: &mut Run, idx: usize, w: &W9, rng: &mut Rng, widx: usize, j: 
     } else if widx == 1 {
         let texts = ["東", "東あ", "東京都", "あ京", "東あああ", "aあ京東"];
         (texts[(j - 2) % texts.len()].to_string(), vec![Op::New(mode)], vec![Op::New(Mode::C)])
+    } else if widx == 2 {
+        // 2nd/3rd user dictionary, U-references, single-flag subsets on both routes
+        let texts = ["あー", "あーは", "あ都", "かきく", "かきくa", "いろは", "あーはかきくaいろは", "あｰは", "𠮷かＢ"];
+        let k = j - 2;
+        mode = if k % 2 == 0 { Mode::A } else { Mode::B };
+        let own = if k % 2 == 0 { SPLIT_A } else { SPLIT_B };
+        let od = match (k / 2) % 6 {
+            0 => vec![Op::New(mode), Op::Sub(own)],
+            1 => vec![Op::New(Mode::C), Op::Sub(1), Op::Md(mode)],
+            2 => vec![Op::New(mode), Op::Sub(0)],
+            3 => vec![Op::New(Mode::C), Op::Sub(4), Op::Md(mode)],
+            4 => vec![Op::New(mode)],
+            _ => vec![Op::New(mode), Op::Sub(SPLIT_A | SPLIT_B)],
+        };
+        let oc = match k % 6 {
+            0 | 1 => vec![Op::New(Mode::C), Op::Sub(own)],
+            2 => vec![Op::New(Mode::C), Op::Sub(SPLIT_A | SPLIT_B)],
+            3 => vec![Op::New(mode), Op::Sub(0), Op::Md(Mode::C)],
+            4 => vec![Op::New(Mode::C)],
+            _ => vec![Op::New(Mode::C), Op::Sub(4)],
+        };
+        (texts[k % texts.len()].to_string(), od, oc)
     } else {
         (gen_text9(rng, w), direct_ops(rng, mode), c_ops(rng))
     };
     run.bump(&format!("mode:{}", mode_char(mode)));
+    // about half of the cases run on RECYCLED objects: tokenizer + result list that analysed 1-4 other texts before
+    let recycled = if widx < 3 { j % 2 == 1 } else { rng.chance(1, 2) };
+    let (hd, hc, ho) = if recycled {
+        (gen_warm(rng, w, &text, opsd.len()), gen_warm(rng, w, &text, opsc.len()), gen_warm(rng, w, &text, 1))
+    } else { (Hist::fresh(), Hist::fresh(), Hist::fresh()) };
+    run.bump(if recycled { "objects:recycled" } else { "objects:new" });
+    if recycled {
+        for h in [&hd, &hc] {
+            for t in &h.warm {
+                run.bump(if t.is_empty() { "history:empty-text" } else if t.len() > 49149 { "history:rejected-text" } else if t.len() > text.len() { "history:longer-text" } else if t.len() < text.len() { "history:shorter-text" } else { "history:same-length-text" });
+            }
+            if h.at < opsd.len().max(opsc.len()) && h.at >= 1 { run.bump("history:configuration-calls-after-the-earlier-texts"); }
+        }
+    }
 
     // mode C list (kept alive for the on-demand splits)
     let cres = catch(|| -> Result<(MorphemeList<&JapaneseDictionary>, Obs), String> {
-        let (mut tok, _) = apply_ops(dic, &opsc);
+        let mut ml = MorphemeList::empty(dic);
+        let (mut tok, _) = apply_hist(dic, &opsc, &hc, &mut ml);
         tok.reset().push_str(&text);
         if let Err(e) = tok.do_tokenize() { return Err(err_class(&e)); }
         let tb = tok.verif_input().verif_tables();
         let sub = tok.verif_state().3.bits();
-        let mut ml = MorphemeList::empty(dic);
         if let Err(e) = ml.collect_results(&mut tok) { return Err(err_class(&e)); }
         let c = extract(&ml, &tb.modified);
-        Ok((ml, Obs { modified: tb.modified, original: tb.original, b2c: tb.mod_b2c, c2b: tb.mod_c2b, m2o: tb.m2o, c, c_subset: sub }))
+        let ls = ml.subset().bits();
+        Ok((ml, Obs { modified: tb.modified, original: tb.original, b2c: tb.mod_b2c, c2b: tb.mod_c2b, m2o: tb.m2o, c, c_subset: sub, list_subset: ls }))
     });
     let (mlc, obs) = match cres {
-        Err(p) => { run.bump("c-mode:panic"); run.fail_with_line(idx, &format!("text={:?}", text), "panic:mode-C", &format!("mode C tokenisation panics: {} | text={:?}", p, text)); return; }
+        Err(p) => { run.bump("c-mode:panic"); run.fail_with_line(idx, &format!("text={:?}", text), "panic:mode-C", &format!("mode C tokenisation panics: {} | text={:?} objects={}", p, text, hc.describe())); return; }
         Ok(Err(e)) => { run.bump(&format!("c-mode:err:{}", e)); return; }
         Ok(Ok(x)) => x,
     };
@@ -746,18 +974,20 @@ fn split_case(run: &mut Run, idx: usize, w: &W9, rng: &mut Rng, widx: usize, j: 
         }
     }
     // direct tokenisation, and the same configuration switched to mode C (same subset): the path before splitting
-    let dres = run_direct(dic, &opsd, &text);
+    let dres = run_direct(dic, &opsd, &hd, &text);
     let mut opsdc = opsd.clone();
     opsdc.push(Op::Md(Mode::C));
-    let pc: Vec<T9> = match run_direct(dic, &opsdc, &text) {
+    let pc: Vec<T9> = match run_direct(dic, &opsdc, &hd, &text) {
         Ok(Ok((ts, _, _, _))) => ts,
         _ => { run.bump("c-mode-of-direct-configuration:failed"); return; }
     };
     let same_paths = wire_list(&pc) == wire_list(&obs.c);
     if !same_paths { run.bump("c-paths-differ-between-subsets(on-demand-not-compared)"); }
-    // on demand, every C morpheme into a cleared list; and all of them into one uncleared list
+    // on demand, every C morpheme into a cleared list; and all of them into one uncleared list.  Recycled cases: both
+    // output lists held the result of other analyses (own input buffer, own nodes) before
     let mut od: Vec<Result<(bool, Vec<T9>), String>> = vec![];
     let mut out = MorphemeList::empty(dic);
+    if recycled { let _ = catch(|| { let _ = apply_hist(dic, &[Op::New(Mode::C)], &ho, &mut out); }); }
     for i in 0..mlc.len() {
         out.clear();
         let r = catch(|| mlc.get(i).split_into(mode, &mut out).map(|flag| (flag, extract(&out, &obs.modified))));
@@ -769,13 +999,21 @@ fn split_case(run: &mut Run, idx: usize, w: &W9, rng: &mut Rng, widx: usize, j: 
     }
     let acc = catch(|| {
         let mut acc = MorphemeList::empty(dic);
+        if recycled { let _ = apply_hist(dic, &[Op::New(Mode::A)], &ho, &mut acc); acc.clear(); }
         let mut flags = vec![];
         for i in 0..mlc.len() { flags.push(mlc.split_into(mode, i, &mut acc).unwrap_or(false)); }
         (flags, extract(&acc, &obs.modified))
     });
+    // `new(C); set_subset(S); set_mode(M)` against a new mode-M tokenizer given the same S (C09.set_mode_then_* theorems):
+    // set_mode does not re-normalise, the two subsets differ in the HEAD_WORD_LENGTH bit, the analyses must not differ at all
+    let fresh_alt = match opsd.as_slice() {
+        [Op::New(Mode::C), Op::Sub(sb), Op::Md(m)] if *m == mode => Some(run_direct(dic, &[Op::New(mode), Op::Sub(*sb)], &Hist::fresh(), &text)),
+        _ => None,
+    };
 
     // ---- correspondence line
-    let pw = |ts: &[T9]| ts.iter().map(|t| format!("{}:{}:{}:{}:{}:{}", t.cb, t.ce, t.bb, t.be, t.wid, if W9::is_lex(t.wid) { 0 } else { 1 })).collect::<Vec<_>>().join(",");
+    // the byte range of a path node is NOT sent: the model computes it from mod_c2b as resolve_best_path does
+    let pw = |ts: &[T9]| ts.iter().map(|t| format!("{}:{}:{}:{}", t.cb, t.ce, t.wid, if W9::is_lex(t.wid) { 0 } else { 1 })).collect::<Vec<_>>().join(",");
     let path = format!("{} pathc={}", pw(&pc), pw(&obs.c));
     let payload = format!("{}opsd={} opsc={} odm={} lex={} b2c={} c2b={} m2o={} path={}", if d6fix { "d6fix=1 " } else { "" }, ops_wire(&opsd), ops_wire(&opsc), mode_char(mode), w.lex_wire,
         join(obs.b2c.iter(), ","), join(obs.c2b.iter(), ","), join(obs.m2o.iter(), ","), path);
@@ -788,7 +1026,7 @@ fn split_case(run: &mut Run, idx: usize, w: &W9, rng: &mut Rng, widx: usize, j: 
     let mut split_any = false;
 
     // ---- oracle
-    let opsdesc = format!("text={:?} mode={} direct-history={} c-history={} world={}", text, mode_char(mode), ops_wire(&opsd), ops_wire(&opsc), w.desc.join(" "));
+    let opsdesc = format!("text={:?} mode={} direct-history={} c-history={} direct-objects={} c-objects={} out-list={} world={}", text, mode_char(mode), ops_wire(&opsd), ops_wire(&opsc), hd.describe(), hc.describe(), ho.describe(), w.desc.join(" "));
     let mut fails: Vec<(String, String)> = vec![];
     let ill_in_path = pc.iter().any(|t| !w.concat_ok(t.wid, mode));
     match &dres {
@@ -841,8 +1079,19 @@ fn split_case(run: &mut Run, idx: usize, w: &W9, rng: &mut Rng, widx: usize, j: 
                     if t.oe - t.ob != t.be - t.bb { run.bump("units:under-length-changing-normalisation"); }
                     let hi = (k + units.len()).min(d.len());
                     let subs = &d[k.min(d.len())..hi];
-                    if let Some((kind, what)) = check_units(w, t, subs, &units, full, w.concat_ok(t.wid, mode)) {
-                        fails.push((tag(&format!("units:{}", kind), t.wid), format!("C token {} {:?} (word {:#x}): {}", ci, t.norm_slice, t.wid, what)));
+                    let wf = w.concat_ok(t.wid, mode);
+                    if !wf {
+                        // ILL-FORMED declaration (units do not concatenate to the key): the property's second sentence does not
+                        // apply.  What the text still demands is judged elsewhere: no panic and C boundaries kept (first
+                        // sentence: `refine:*`, `panic:*`), on demand = direct (third sentence: `ondemand:*`).  Clamped and
+                        // zero-length units are allowed by the text; how many there are and how they lie is recorded, not judged.
+                        run.bump("illformed-declaration:split");
+                        if subs.iter().any(|x| x.cb == x.ce) { run.bump("illformed-declaration:zero-length-unit"); }
+                        if subs.iter().zip(units.iter()).any(|(x, u)| x.cb != x.ce && x.norm_slice.as_deref() != Some(u.row.surface.as_str())) { run.bump("illformed-declaration:clamped-or-shifted-unit"); }
+                    }
+                    if let Some((kind, what)) = check_units(w, t, subs, &units, full, wf) {
+                        if wf { fails.push((format!("units:{}", kind), format!("C token {} {:?} (word {:#x}): {}", ci, t.norm_slice, t.wid, what))); }
+                        else { run.bump(&format!("illformed-declaration:{}(recorded,not-a-clause-of-C09)", kind)); let _ = what; }
                     }
                     k += units.len();
                 }
@@ -868,6 +1117,16 @@ fn split_case(run: &mut Run, idx: usize, w: &W9, rng: &mut Rng, widx: usize, j: 
                     break;
                 }
                 prev = x.oe;
+            }
+            if let Some(alt) = &fresh_alt {
+                run.bump("direct:set_subset-in-C-then-set_mode(compared-with-new-tokenizer-of-that-mode)");
+                match alt {
+                    Ok(Ok((a, abits, _, _))) => {
+                        if abits & !HWL != bits & !HWL { fails.push(("setmode-vs-fresh:subset".into(), format!("subset after set_subset-then-set_mode is {}, a new mode-{} tokenizer with the same request has {}: they differ in more than the HEAD_WORD_LENGTH bit", bits, mode_char(mode), abits))); }
+                        if a != d { fails.push(("setmode-vs-fresh".into(), format!("set_subset in mode C followed by set_mode({}) gives {:?}; a new mode-{} tokenizer with the same set_subset gives {:?}", mode_char(mode), d.iter().map(|x| (x.wire(), x.hwl, x.headword.clone())).collect::<Vec<_>>(), mode_char(mode), a.iter().map(|x| (x.wire(), x.hwl, x.headword.clone())).collect::<Vec<_>>()))); }
+                    }
+                    _ => fails.push(("setmode-vs-fresh".into(), "a new tokenizer of the mode with the same set_subset fails, set_subset-then-set_mode succeeds".into())),
+                }
             }
             // on demand == direct
             let c_need = match mode { Mode::A => SPLIT_A, Mode::B => SPLIT_B, Mode::C => 0 };
@@ -908,13 +1167,27 @@ fn split_case(run: &mut Run, idx: usize, w: &W9, rng: &mut Rng, widx: usize, j: 
                         if !same && fails.is_empty() { fails.push(("ondemand:accumulate".into(), format!("splitting every C token into one uncleared list gives {:?}, expected {:?}", ts.iter().map(|x| x.wire()).collect::<Vec<_>>(), exp_acc.iter().map(|x| x.wire()).collect::<Vec<_>>()))); }
                     }
                 }
+            } else if obs.c_subset & c_need != c_need {
+                // the list was made without the split field of the requested mode: the documented opt-out
+                // ("You need to load splits if you want to use Morpheme.split", subsetting.rst) - nothing is loaded, so
+                // nothing may be split: false, nothing appended, no panic
+                run.bump("ondemand:list-without-the-split-field(opt-out)");
+                for (ci, r) in od.iter().enumerate() {
+                    match r {
+                        Ok((false, subs)) if subs.is_empty() => {}
+                        other => { fails.push(("ondemand:optout".into(), format!("the mode C list was made with subset {} (no split field of mode {}); split_into of token {} returned {:?}", obs.c_subset, mode_char(mode), ci, other.as_ref().map(|(f, s)| (*f, s.len())).map_err(|e| e.clone())))); break; }
+                    }
+                }
             } else {
                 run.bump("ondemand:not-compared(correspondence-only)");
             }
         }
     }
     let nontrivial = split_any && matches!(dres, Ok(Ok(_)));
-    run.case(idx, "split", &payload, &format!("ok direct={} od={}", dpart, odpart), nontrivial);
+    run.case(idx, "split", &payload, &format!("ok direct={} ls={} od={}", dpart, obs.list_subset, odpart), nontrivial);
+    if obs.list_subset != obs.c_subset {
+        run.fail(idx, "list-subset", &format!("collect_results left the list with subset {} although the tokenizer that made it had {} (split_into reads the units with the list's subset) | {}", obs.list_subset, obs.c_subset, opsdesc));
+    }
     if let Some((k, what)) = fails.into_iter().next() {
         run.fail(idx, &k, &format!("{} | {}", what, opsdesc));
     }
